@@ -1,7 +1,7 @@
 (* Extraction of the regex matcher, the event-filter model (C15), the listing model (C14) and the
    transfer model (C18).  ExtrOcamlBasic only.  Protocol: harness/props/listing_codec.py. *)
 From Coq Require Import ZArith List Bool.
-From DRF Require Import Base.Regex Gen.Grammar Model.PathSpec Model.Events Model.EventsUniverse.
+From DRF Require Import Base.Regex Gen.Grammar Model.PathSpec Model.Events Model.EventsUniverse Model.Listing.
 Require Extraction.
 Require Import ExtrOcamlBasic.
 Import ListNotations.
@@ -56,6 +56,79 @@ Definition code_of (ev : event) (o : outcome) : Z :=
     else if (kind_code k' =? 2) && word_eqb s' (ev_src ev) && word_eqb d' [] then 4
     else if (kind_code k' =? 0) && word_eqb s' (ev_dest ev) && word_eqb d' [] then 5
     else 9
+  end.
+
+(* trees: 0 = file | 2 = vanished directory | 1 n (name node)^n = directory *)
+Fixpoint parse_node (fuel : nat) (l : list Z) : option (node * list Z) :=
+  match fuel with
+  | O => None
+  | S f =>
+    match l with
+    | 0 :: r => Some (File, r)
+    | 2 :: r => Some (Gone, r)
+    | 1 :: n :: r =>
+      match parse_entries f (Z.to_nat n) r with
+      | Some (es, r') => Some (Dir es, r')
+      | None => None
+      end
+    | _ => None
+    end
+  end
+with parse_entries (fuel : nat) (n : nat) (l : list Z) : option (list (word * node) * list Z) :=
+  match n with
+  | O => Some ([], l)
+  | S n' =>
+    match fuel with
+    | O => None
+    | S f =>
+      let '(w, r) := take_word l in
+      match parse_node f r with
+      | Some (nd, r') =>
+        match parse_entries f n' r' with
+        | Some (es, r'') => Some ((w, nd) :: es, r'')
+        | None => None
+        end
+      | None => None
+      end
+    end
+  end.
+
+Definition err_code (e : option err) : Z :=
+  match e with None => 0 | Some IndexError => 1 | Some OSErrorE => 2 | Some ValueErrorE => 3 end.
+
+Definition enc_result (r : list word * option err) : list Z :=
+  err_code (snd r) :: zlen (map (fun _ => 0) (fst r)) :: flat_map enc_word (fst r).
+
+(* variant(4) flags(4) start(2) end(2) recursive reverse ctx? [base parent-node] node *)
+Definition run_listing (args : list Z) : list Z :=
+  match args with
+  | v1 :: v2 :: v3 :: v4 :: a :: b :: c :: d :: rest =>
+    let v := mkVariant (zb v1) (zb v2) (zb v3) (zb v4) in
+    let fl := mkFlags (zb a) (zb b) (zob c) (zob d) in
+    let '(st, rest) := take_opt rest in
+    let '(en, rest) := take_opt rest in
+    match rest with
+    | rc :: rv :: hasctx :: rest =>
+      let o := mkOpts fl st en (zb rc) (zb rv) in
+      let fuel := List.length rest in
+      if zb hasctx then
+        let '(base, rest) := take_word rest in
+        match parse_node fuel rest with
+        | Some (Dir parent, rest') =>
+          match parse_node fuel rest' with
+          | Some (t, _) => enc_result (ilsdrf v o (Some (base, parent)) t)
+          | None => [-995]
+          end
+        | _ => [-996]
+        end
+      else
+        match parse_node fuel rest with
+        | Some (t, _) => enc_result (ilsdrf v o None t)
+        | None => [-995]
+        end
+    | _ => [-997]
+    end
+  | _ => [-997]
   end.
 
 Definition run (f : Z) (args : list Z) : list Z :=
@@ -115,6 +188,7 @@ Definition run (f : Z) (args : list Z) : list Z :=
         flat_map (fun q => row (mkEvent Moved false src q) (classify rs q)) dests ++
         match dests with q :: _ => row (mkEvent Moved true src q) (classify rs q) | [] => [] end
       end
+  | 20, _ => run_listing args
   | _, _ => [-999]
   end.
 
